@@ -20,7 +20,7 @@
    never reached), D = sum of the selected discretised cells (i32::MIN = skipped). *)
 From Coq Require Import List ZArith QArith Qround Qabs Bool Arith Lia.
 From LMBase Require Import Res ListX IEEE.
-From LMDist Require Import DistModel DistInst DistProofs DistConv DistTail DistBuild DistThms
+From LMDist Require Import GenDist DistSkel DistModel DistInst DistProofs DistConv DistTail DistBuild DistThms
   DistDyadic DistCheckProofs DistStretch DistIEEE DistTotal DistNaive DistWords.
 Import ListNotations.
 Local Open Scope Q_scope.
@@ -91,6 +91,14 @@ Theorem C11_methods_total : forall m bg d s p,
   bg_nonneg bg -> build QOps m bg = Ok d ->
   (exists q, d_pvalue QOps d s = Ok q) /\ (exists sc, d_score QOps d p = Ok sc).
 Proof. intros m bg d s p Hbg H. apply methods_Q_total. exact (sf_nonempty m bg d Hbg H). Qed.
+
+(* `Distribution<f32>::sample` (feature "sampling") is score() of the uniform draw: never panics on a
+   built distribution, and for a draw p in (0,1) the sampled score s has pvalue(s) <= p
+   (C11_score_pvalue_roundtrip applies to it verbatim). *)
+Theorem C11_sample_is_score : forall m bg d p,
+  bg_nonneg bg -> build QOps m bg = Ok d ->
+  exists s, d_sample QOps d p = Ok s /\ d_score QOps d p = Ok s.
+Proof. intros m bg d p Hbg H. apply sample_Q_total. exact (sf_nonempty m bg d Hbg H). Qed.
 
 (* ====================================================================== *)
 (* Stretch                                                                *)
@@ -187,6 +195,30 @@ Theorem C11_kloop_is_rust_loop : forall (T : Type) (N : NumOps T) old maxk s b n
   (S maxk <= length old)%nat -> (0 <= s)%Z -> s <> i32_min ->
   add_symbol N old maxk s b new = naive_k N old (Z.to_nat s) b (seq 0 (S maxk)) new.
 Proof. exact @add_symbol_naive_eq. Qed.
+
+(* ====================================================================== *)
+(* Tie of the hand-written model to the source text (regenerated on every   *)
+(* run by translate/dist_skel.py into GenDist.v)                            *)
+(* ====================================================================== *)
+
+(* the statement skeleton of `From<ScoringMatrix> for ScoreDistribution` and of the methods
+   scale/unscale/pvalue/score/min_pvalue/sample is the one the model was written against *)
+Theorem C11_source_skeleton :
+  gen_from_body = model_from_body /\ gen_methods = model_methods.
+Proof. split; vm_compute; reflexivity. Qed.
+
+(* CDF_RANGE (the model's cdf_range IS the regenerated constant), the rounding function of the
+   cell discretisation, the bounds of the inner k loop, the skip marker, the fill bound, the
+   accumulation, the zero test, the scale fall-back and the two min(1.0) clip sites *)
+Theorem C11_source_parameters :
+  cdf_range = gen_cdf_range /\ gen_cdf_range = 1000%nat /\
+  gen_round_fn = model_round_fn /\
+  (gen_kloop_lo, gen_kloop_hi, gen_kloop_inclusive) = (model_kloop_lo, model_kloop_hi, model_kloop_inclusive) /\
+  gen_max_def = model_max_def /\ gen_skip_marker = model_skip_marker /\
+  gen_fill = model_fill /\ gen_accumulate = model_accumulate /\ gen_nonzero_test = model_nonzero_test /\
+  gen_scale_fallback = model_scale_fallback /\ gen_clip_sites = model_clip_sites /\
+  gen_sf_loop = model_sf_loop /\ gen_sf_sum = model_sf_sum.
+Proof. repeat (split; [vm_compute; reflexivity|]). vm_compute; reflexivity. Qed.
 
 (* ====================================================================== *)
 (* Known finding: the round trip is false of the bit-exact model (f32      *)
